@@ -22,7 +22,9 @@ Inductive pexpr : Type :=
 | EFloat (a : pexpr)                 (* float(a)                                 *)
 | ESum (a : pexpr)                   (* sum(a)                                   *)
 | EMath1 (f : string) (a : pexpr)    (* math.sqrt / cbrt / cos / sin             *)
-| ELog2 (a b : pexpr).               (* math.log(a, b)                           *)
+| ELog2 (a b : pexpr)                (* math.log(a, b)                           *)
+| EMf (f : string) (args : list pexpr).   (* mf.f(args): a call into math_functions.py, whose
+                                             bodies are tied to MathFun.v by TieMath.v        *)
 
 Inductive pcond : Type :=
 | CCmp (op : string) (a b : pexpr)   (* == < > <= >= != *)
@@ -94,7 +96,50 @@ Section Interp.
           else PyErr TypeError
     end.
 
-  Fixpoint ev (r : env) (e : pexpr) : outcome value :=
+  (** a call into math_functions.py, by name; an int argument where the signature says int *)
+  Definition mf_dispatch (f : string) (args : list value) : outcome T :=
+    let num (v : value) := as_T v in
+    match args with
+    | [a] =>
+        x <- num a ;;
+        if String.eqb f "negation" then Val (mf_negation N x)
+        else if String.eqb f "reciprocal" then mf_reciprocal N x
+        else if String.eqb f "cosine" then mf_cosine N x
+        else if String.eqb f "sine" then mf_sine N x
+        else if String.eqb f "add" then Val (mf_add N [x])
+        else if String.eqb f "multiply" then Val (mf_multiply N [x])
+        else PyErr TypeError
+    | [a; b] =>
+        x <- num a ;;
+        if String.eqb f "nth_power" then
+          match b with
+          | VZ n => if Z.ltb 0 n then mf_nth_power N x (Z.to_pos n) else DomErr
+          | _ => PyErr TypeError
+          end
+        else if String.eqb f "nth_root" then
+          match b with
+          | VZ n => if Z.ltb 0 n then mf_nth_root N x (Z.to_pos n) else DomErr
+          | _ => PyErr TypeError
+          end
+        else
+          y <- num b ;;
+          if String.eqb f "minus" then Val (mf_minus N x y)
+          else if String.eqb f "divide" then mf_divide N x y
+          else if String.eqb f "power" then mf_power N x y
+          else if String.eqb f "exponential" then mf_exponential N x y
+          else if String.eqb f "logarithm" then mf_logarithm N x y
+          else if String.eqb f "add" then Val (mf_add N [x; y])
+          else if String.eqb f "multiply" then Val (mf_multiply N [x; y])
+          else PyErr TypeError
+    | [a; b; c] =>
+        x <- num a ;; y <- num b ;; z <- num c ;;
+        if String.eqb f "add" then Val (mf_add N [x; y; z])
+        else if String.eqb f "multiply" then Val (mf_multiply N [x; y; z])
+        else PyErr TypeError
+    | _ => PyErr TypeError
+    end.
+
+  Fixpoint ev (r : env) (e : pexpr) {struct e} : outcome value :=
     match e with
     | EName x => match lookup_env x r with Some v => Val v | None => PyErr KeyError end
     | EInt z => Val (VZ z)
@@ -125,6 +170,13 @@ Section Interp.
     | ELog2 a b =>
         v <- ev r a ;; x <- as_T v ;; w <- ev r b ;; y <- as_T w ;;
         z <- prim_log N x y ;; Val (VT z)
+    | EMf f args =>
+        vs <- (fix evs (l : list pexpr) : outcome (list value) :=
+                 match l with
+                 | [] => Val []
+                 | a :: rest => v <- ev r a ;; vs <- evs rest ;; Val (v :: vs)
+                 end) args ;;
+        x <- mf_dispatch f vs ;; Val (VT x)
     end.
 
   Definition cmp (op : string) (a b : value) : outcome bool :=
